@@ -366,6 +366,11 @@ class StreamReader:
                 await waiter
         finally:
             self._waiter = None
+        # The waiter may have been released without data (the end of an HTTP
+        # chunk) just before an error was recorded, which then found no waiter
+        # to fail: the caller must not go back to waiting.
+        if self._exception is not None:
+            raise self._exception
 
     async def _fire_chunk_received(self, chunk: bytes) -> None:
         cb = self._on_chunk_received
